@@ -153,6 +153,41 @@ async def run_async(rec, cfg, given, calls, plan):
     return a, rec.n
 
 
+# passwords of shapes a key-handling layer might be tempted to interpret (hex / base64 / numbers / blanks / binary / non-ASCII / format
+# directives): a password is an opaque octet string
+SHAPED_PASSWORDS = [b"0xC0FFEE1234ab", b"0x00", b"0XABCDEF0123456789", b"  padded  ", b"\x00\x01binary\xff\xfe", "\u043f\u0430\u0440\u043e\u043b\u044c".encode(),
+                    b"a" * 64, b"12345678", b"QmFzZTY0Kw==", b"{\"json\": 1}", b"%s%n%x", b"0b1010", b"deadbeefdeadbeefdeadbeefdeadbeef"]
+
+
+def shaped_password_sessions(rec, thorough):
+    """sessions (sync and async, engine id given or discovered) whose passwords have such shapes; returns runs [(a, b, info)]"""
+    runs = []
+    items = []
+    for pi, pw in enumerate(SHAPED_PASSWORDS):
+        if not thorough and pi % 2 and pi > 4:
+            continue
+        auth, priv = [("md5", "none"), ("sha1", "aes"), ("md5", "des"), ("sha1", "none")][pi % 4]
+        items.append((auth, priv, pw, pi % 2 == 0, 7000 + pi))
+
+    def cfg_of(auth, priv, pw, i):
+        return rawdrv.Cfg("v3", user="shaped%d" % i, engine=ENGINES["A17"], auth=auth, akt="password", akm=pw, priv=priv, pkt="password", pkm=pw[::-1] if priv != "none" else b"")
+    calls = ["enter", "get", "get"]
+
+    async def go():
+        out = []
+        for (auth, priv, pw, given, i) in items[0::2]:
+            plan = [("reply", "A17", (k + 1) % len(CLOCKS)) for k in range(6)]
+            a, b = await run_async(rec, cfg_of(auth, priv, pw, i), given, calls, plan)
+            out.append((a, b, dict(kind="async", auth=auth, priv=priv, kt="shaped:%d" % (i - 7000), given=given, engine="A17", calls=calls, plan=plan, idx=i, shaped=True)))
+        return out
+    runs += asyncio.run(go())
+    for (auth, priv, pw, given, i) in items[1::2]:
+        plan = [("reply", "A17", (k + 1) % len(CLOCKS)) for k in range(6)]
+        a, b = run_sync(rec, cfg_of(auth, priv, pw, i), given, calls, plan)
+        runs.append((a, b, dict(kind="sync", auth=auth, priv=priv, kt="shaped:%d" % (i - 7000), given=given, engine="A17", calls=calls, plan=plan, idx=i, shaped=True)))
+    return runs
+
+
 def lost_discovery_histories(rec, users, thorough, base_idx=900):
     """Public-API histories (sync and async) of sessions created WITHOUT an engine id in which discovery datagrams are lost and
     enter / refresh is retried before requests are made.  users: list of (auth, priv, key type).  Returns runs [(a, b, info)];
@@ -235,6 +270,7 @@ def run(tier):
         shared.append((auth, priv, "shared-password", False, "A17", calls, [("reply", "A17", (i + 1) % len(CLOCKS)) for i in range(6)], 5000 + k))
     half = [s for k, s in enumerate(scen) if k % 2 == 0]
     other = [s for k, s in enumerate(scen) if k % 2 == 1]
+    runs += shaped_password_sessions(rec, thorough)
     runs += asyncio.run(all_async(shared))
     for (auth, priv, kt, given, ename, calls, plan, i) in shared:
         cfg = make_cfg(auth, priv, kt, ENGINES[ename], i)
@@ -274,6 +310,10 @@ def replay(path):
     info = d["replay"]["info"]
     rec = trace.Recorder("c13-replay")
     cfg = make_cfg(info["auth"], info["priv"], info["kt"], ENGINES[info["engine"]], info["idx"])
+    if info.get("shaped"):
+        pw = SHAPED_PASSWORDS[info["idx"] - 7000]
+        cfg = rawdrv.Cfg("v3", user="shaped%d" % info["idx"], engine=ENGINES["A17"], auth=info["auth"], akt="password", akm=pw, priv=info["priv"], pkt="password",
+                         pkm=pw[::-1] if info["priv"] != "none" else b"")
     plan = [tuple(p) if isinstance(p, list) else p for p in info["plan"]]
     if info["kind"] == "async":
         asyncio.run(run_async(rec, cfg, info["given"], info["calls"], plan))
